@@ -518,7 +518,16 @@ def c02(tier):
     if ck.notes["model"]["multi_trait_accepting"] == 0:
         raise dx.ToolError("vacuous coherence run")
     items = items_from_cfgs(cfgs, tier, rotate=(tier == "quick"))
-    items += random_items(random.Random(dx.seed() + 2), 700 if tier == "quick" else 8000)
+    ritems = random_items(random.Random(dx.seed() + 2), 700 if tier == "quick" else 8000)
+    # the premise of the property: all key / by functions on a field express ONE key.  `key = $` (the field itself) next to another key is
+    # outside it, so under the coherent mode an identity key is written as the common key like every other one
+    for it in ritems:
+        for v in it[0]["variants"]:
+            for f in v["fields"]:
+                for o in f["cmp"].values():
+                    if o["sel"] == "idkey":
+                        o["sel"] = "key"
+    items += ritems
     events, meta, stats = observe_runtime(ck, items, "coherent", True, "c02")
     n, bad, jst = dx.tlc_judge("Trace_Cmp", "Trace_Cmp.cfg", events, "c02", chunk=max(300, -(-len(events) // 12)))
     ck.add_judge(n, jst)
